@@ -1,6 +1,7 @@
 """common — result collection, known findings, evidence and exit protocol for all checks."""
 import json
 import os
+import re
 import sys
 import time
 
@@ -22,10 +23,10 @@ def load_known():
         line = line.strip()
         if not line.startswith("finding:"):
             continue
-        body, _, desc = line[len("finding:"):].partition("::")
-        kv = dict(x.split("=", 1) for x in body.split() if "=" in x)
-        if "property" in kv and "key" in kv:
-            out[(kv["property"], kv["key"])] = desc.strip()
+        body, _, desc = line[len("finding:"):].partition(" :: ")
+        m = re.match(r"\s*property=(\S+)\s+key=(.*?)\s*$", body)
+        if m:
+            out[(m.group(1), m.group(2))] = desc.strip()
     return out
 
 
